@@ -117,6 +117,8 @@ func (x *Exec) bumpAlloc(st *State) {
 	nb := x.freshVar("alloc_c", SInt)
 	st.assume(Cmp(">=", nb, st.alloc))
 	st.alloc = nb
+	x.allocRankN++
+	allocRanks[nb.Op] = x.allocRankN
 }
 
 func (x *Exec) freshResult(st *State, t types.Type, hint string) Val {
@@ -179,8 +181,9 @@ func (x *Exec) topReturn(st *State, fr *Frame, rs []Val, ins *ssa.Return) {
 		if label == "" {
 			label = fmt.Sprintf("%d", i+1)
 		}
+		rv := x.revealAxioms(env, c.Reveal)
 		t := x.evalBool(env, c.E)
-		side := env.takeSide()
+		side := append(rv, env.takeSide()...)
 		x.oblige(st, "ensures", label, c.Props, t, c.Src+" @ "+src, side...)
 	}
 	// panics_iff: a normal return means the condition did not hold
@@ -290,21 +293,20 @@ func (x *Exec) callByContract(st *State, fr *Frame, call *ssa.Call, callee *ssa.
 		}
 		havocked[comp] = true
 		preH := x.heapGet(pre, comp, srt)
-		nh := x.freshVar(comp+"_c", srt)
-		a := Var("fa", SInt)
-		var cond []*Term
+		// Only the objects named in assigns change (row-level havoc).  Objects the callee allocates "appear" at ids whose
+		// pre-state content was never constrained, so keeping the same term there is sound (lazy allocation).
+		_, rowSort := srt.ArrayParts()
+		nh := preH
 		for _, as := range asgs {
 			for _, c := range as.comp {
 				if c == comp {
-					cond = append(cond, Not(Eq(a, as.id)))
+					row := x.freshVar(comp+"_crow", rowSort)
+					nh = Store(nh, as.id, row)
+					x.rowWfAssume(st, row, comp, st.alloc)
 				}
 			}
 		}
-		// Objects the callee does not name in assigns are unchanged.  Objects it allocates "appear" at ids >= allocPre whose
-		// pre-state content was never constrained, so identifying pre and post content there is sound (lazy allocation).
-		st.assume(Forall([]*Term{a}, Implies(And(cond...), Eq(Select(nh, a), Select(preH, a))), []*Term{Select(nh, a)}))
 		st.heap[comp] = nh
-		x.heapWfAxiom(nh, comp, st.alloc)
 		return nh
 	}
 	for _, as := range asgs {
